@@ -463,6 +463,8 @@ func c12Dedupe(p *Prog, r *Report) {
 }
 
 func c12Diff(p *Prog, r *Report) {
+	cellThroughCopies = true
+	defer func() { cellThroughCopies = false }()
 	cp := p.Func(pkgRemediation, "ConstructPatches")
 	if cp == nil {
 		r.Undecided("D3-update-is-diff", "anchor:ConstructPatches", "-", "not found")
